@@ -1,24 +1,38 @@
 --------------------------- MODULE Trace_GBParallel ---------------------------
 (***************************************************************************)
 (* Trace validation for the pool (C03): one trace = one real                *)
-(* util.parallel_map call whose completion order was forced by the          *)
-(* harness-side scheduler.  T = [n, order (0-based completion order as      *)
-(* observed by the done-callbacks), results (what parallel_map returned,    *)
-(* task i computes 100 + i)]                                                 *)
+(* util.parallel_map (or parallel_reduce) call whose completion order was   *)
+(* forced by the harness-side scheduler.                                     *)
+(*   T.n        number of tasks (task i computes 100 + i, or raises)        *)
+(*   T.raises   0-based indices of the tasks that raise                      *)
+(*   T.order    0-based order in which the done-callbacks saw the tasks     *)
+(*              complete, up to and including the one whose exception       *)
+(*              propagated (all of them when the call returned)              *)
+(*   T.outcome  "returned" | "raised";  T.exc  0-based task whose exception *)
+(*              came out of the call (-1: none)                               *)
+(*   T.results  what parallel_map returned; T.reduced what parallel_reduce  *)
+(*              returned (concatenation of one-element lists), <<>> if n/a   *)
 (***************************************************************************)
 EXTENDS GBParallel, Json, IOUtils, TLCExt
 Traces == JsonDeserialize(IOEnv.TRACE_FILE)
 VARIABLES tid, l
 T == Traces[tid]
 TraceInit == /\ tid \in 1..Len(Traces)
-             /\ ntasks = Traces[tid].n
-             /\ status = [i \in 1..Traces[tid].n |-> "pending"]
+             /\ ntasks = Traces[tid].n /\ workers = Traces[tid].n
+             /\ raises = {Traces[tid].raises[j] + 1 : j \in 1..Len(Traces[tid].raises)}
+             /\ status = [i \in 1..Traces[tid].n |-> "queued"]
              /\ results = [i \in 1..Traces[tid].n |-> None]
-             /\ order = <<>> /\ pc = "running" /\ l = 1
-TraceCollect == /\ l <= Len(T.order) /\ Collect(T.order[l] + 1) /\ l' = l + 1 /\ UNCHANGED tid
-TraceReturn == /\ l = Len(T.order) + 1 /\ Return
-               /\ T.results = results'
-               /\ PrintT(<<"ACCEPT", tid>>)
-               /\ l' = l + 1 /\ UNCHANGED tid
-TraceSpec == TraceInit /\ [][TraceCollect \/ TraceReturn]_<<pvars, tid, l>>
+             /\ order = <<>> /\ pc = "running" /\ exc = None /\ reduced = <<>> /\ l = 1
+TraceInline == /\ T.n = 1 /\ l = 1 /\ Inline /\ l' = 2 /\ UNCHANGED tid
+TraceCollect == /\ T.n > 1 /\ l <= Len(T.order) /\ RunAndCollect(T.order[l] + 1) /\ l' = l + 1 /\ UNCHANGED tid
+TraceReturn == /\ T.n > 1 /\ l = Len(T.order) + 1 /\ Return /\ l' = l + 1 /\ UNCHANGED tid
+TraceReduce == /\ pc = "returned" /\ Len(T.reduced) > 0 /\ Reduce /\ l' = l + 1 /\ UNCHANGED tid
+TraceDone == /\ pc \in {"returned", "raised"} /\ (Len(T.reduced) > 0 => reduced # <<>> \/ pc = "raised")
+             /\ T.outcome = pc
+             /\ (pc = "returned" => T.results = results /\ T.reduced = reduced)
+             /\ (pc = "raised" => T.exc + 1 = exc)
+             /\ PrintT(<<"ACCEPT", tid>>)
+             /\ pc' = "checked" /\ l' = l + 1
+             /\ UNCHANGED <<ntasks, workers, raises, status, results, order, exc, reduced, tid>>
+TraceSpec == TraceInit /\ [][TraceInline \/ TraceCollect \/ TraceReturn \/ TraceReduce \/ TraceDone]_<<pvars, tid, l>>
 =============================================================================
